@@ -377,7 +377,11 @@ func Main(c *Check, tier string, rest []string) int {
 				if len(lg) > 4000 {
 					lg = lg[:2500] + "\n...\n" + lg[len(lg)-1500:]
 				}
-				if c.CrashIsViolation {
+				// only the Go runtime's fatal errors (stack overflow, out of memory ...) are attributed to the
+				// code under test; an ordinary uncaught panic in a worker is a harness bug (library panics are
+				// recovered per case by the checks)
+				fatal := strings.Contains(r.log, "fatal error:") || strings.Contains(r.log, "stack exceeds")
+				if c.CrashIsViolation && fatal {
 					jb, _ := os.ReadFile(filepath.Join(dir, fmt.Sprintf("p%d.json.journal", r.i)))
 					cs := "(no case journalled)"
 					if len(jb) >= 8 {
